@@ -68,6 +68,11 @@ pub fn attr_alphabet(tid: u128) -> Vec<Op> {
     v.push(Op::Raw(0x0001, vec![0, 1, 0x12, 0x34, 1, 2, 3, 4]));
     v.push(Op::Raw(0x8022, b"raw software".to_vec()));
     v.push(Op::Raw(0x0006, vec![0xFF, 0xFE])); // raw USERNAME that is not UTF-8: the builder does not care
+    // boundary type codes (reserved 0x0000, the comprehension boundary, the last code)
+    v.push(Op::Raw(0x0000, vec![9, 9]));
+    v.push(Op::Raw(0x7FFF, vec![]));
+    v.push(Op::Raw(0x8000, vec![7]));
+    v.push(Op::Raw(0xFFFF, vec![1, 2, 3, 4]));
     v
 }
 
@@ -189,13 +194,30 @@ pub fn run(ctx: &Ctx) -> Report {
             cases2.push(Prog { class: 2, method: 1, tid: t, ops: vec![Op::Typed(k, v), Op::Sha1(1), Op::Sha256(1), Op::Fp] }.to_case("build"));
         }
     }
+    // (5) every 16-bit type code as a raw attribute (the three sealing codes excepted: the builder
+    //     documents a panic for them), alone and behind a typed attribute, unsealed and fully sealed
+    for x in 0..=0xFFFFu32 {
+        let x = x as u16;
+        if x == wire::MI || x == wire::MI256 || x == wire::FP {
+            continue;
+        }
+        let val: Vec<u8> = (0..(x % 7) as u8).collect();
+        cases2.push(Prog { class: (x % 4) as u8, method: 1, tid: tid0, ops: vec![Op::Raw(x, val.clone())] }.to_case("build"));
+        let mut ops = vec![];
+        if x != 0x8022 {
+            ops.push(alpha[6].clone());
+        }
+        ops.push(Op::Raw(x, val));
+        ops.extend([Op::Sha1(0), Op::Sha256(0), Op::Fp]);
+        cases2.push(Prog { class: 0, method: 1, tid: tid0, ops }.to_case("build"));
+    }
     let acc2 = crate::props::sweep(cases2.into_par_iter(), judge);
     let mut acc = acc1.merge(acc2);
     acc.nontrivial = *acc.outcomes.get("built and read back").unwrap_or(&0) + acc.violations.values().map(|(_, n)| *n).sum::<u64>();
     Report {
         acc,
         exhaustive: true,
-        rule: "all lists of pairwise distinct attributes up to the depth over a 38-entry alphabet (16 non-sealing built-in types with 2-3 values each + raw types) x 8 sealing combinations x {short-term, long-term}; 100 header variants x 3 lists x 8 sealings; all 4096 methods x 4 classes; one-attribute messages of every length 0..=763 (USERNAME 0..=513); every encode-side value of every type; distinct_nontrivial = programs the builder ran to completion".into(),
+        rule: "all lists of pairwise distinct attributes up to the depth over a 42-entry alphabet (16 non-sealing built-in types with 2-3 values each + raw types) x 8 sealing combinations x {short-term, long-term}; 100 header variants x 3 lists x 8 sealings; all 4096 methods x 4 classes; one-attribute messages of every length 0..=763 (USERNAME 0..=513); every encode-side value of every type; every 16-bit type code as a raw attribute (alone; behind SOFTWARE and fully sealed); distinct_nontrivial = programs the builder ran to completion".into(),
         bounds: json!({"attribute_lists": n_lists, "list_depth": depth, "alphabet": alpha.len(), "sealings": 8}),
         assumptions: vec!["messages larger than the 16-bit length field are outside the statement".into()],
         ..Default::default()
